@@ -159,6 +159,13 @@ type letter struct {
 	Core  bool     // member of the reduced alphabet used for the deepest words
 	List  bool     // member of the poll-list family
 	fn    int      // index into wasiFns
+
+	// Host-mode letters (hostmode.go) perform no WASI call: as the first letter of a word they fix the
+	// host side of all following calls — the kind of context.Context the host passes to
+	// InstantiateModule and to every Call, and the flavour of the runtime.
+	Host    bool
+	HostCtx int // index into ctxKindNames
+	HostRT  int // index into rtFlavorNames
 }
 
 // Subscription atoms of the poll-list letters: every list (with repetition) of 0..4 atoms is a letter.
@@ -370,6 +377,7 @@ func buildAlphabet() []letter {
 		}
 		ls = append(ls, l)
 	}
+	ls = append(ls, hostLetters()...)
 	return ls
 }
 
